@@ -106,9 +106,70 @@ def gen_ts_graph(rng, mode):
     return steps, gmeta
 
 
+def summary_steps(vars_, pairs, rng=None):
+    """A time-series DAG whose every edge is lagged (so any set of (source variable, destination variable) pairs is acyclic):
+    the summary graph is decided by the set of pairs; used to cover feedback pairs sitting on longer summary cycles."""
+    steps = []
+    for sv, dv in pairs:
+        delta = 1 if rng is None else rng.choice([1, 1, 2])
+        pos = 0 if rng is None else rng.choice([0, 0, -1])
+        steps.append(('edge', H.ts_name(sv, pos - delta), H.ts_name(dv, pos), '->', None))
+    if rng is not None:
+        rng.shuffle(steps)
+    return steps
+
+
+def all_summary3():
+    vs = ['x', 'y', 'z']
+    ps = [(a, b) for a in vs for b in vs]
+    for mask in range(1, 1 << len(ps)):
+        yield summary_steps(vs, [ps[i] for i in range(len(ps)) if mask >> i & 1]), None
+
+
+def gen_summary_graph(rng):
+    vs = rng.sample(['x', 'y', 'z', 'w', 'v'], rng.choice([4, 4, 5]))
+    ps = [(a, b) for a in vs for b in vs]
+    p = rng.choice([0.25, 0.4, 0.55])
+    pairs = [q for q in ps if rng.random() < p]
+    # make sure there is a longer cycle with a feedback pair touching it
+    cyc = rng.sample(vs, rng.choice([3, 3, 4]))
+    pairs += [(cyc[i], cyc[(i + 1) % len(cyc)]) for i in range(len(cyc))]
+    a, b = rng.choice(cyc), rng.choice(vs)
+    if a != b:
+        pairs += [(a, b), (b, a)]
+    pairs = list(dict.fromkeys(pairs))
+    steps = summary_steps(vs, pairs, rng)
+    if rng.random() < 0.3:
+        steps.append(('node', H.ts_name('u', rng.choice([0, -1])), 'unspecified', None))
+    return steps, None
+
+
+def probe(g, rng):
+    """Read-only queries, also with arguments the graph does not have (absent lags, variables, nodes), between the construction
+    steps: none of them may change what the derived-graph operations answer afterwards."""
+    H.warm_caches(g, rng, 0.3)
+    for f in (lambda: g.get_nodes_at_lag(rng.choice([-7, -4, -3, 1, 2, 5])), lambda: g.get_nodes_at_lag(rng.randint(-3, 1)),
+              lambda: g.get_nodes_for_variable_name(rng.choice(['nope', 'x', 'y', 'x lag(n=1)'])),
+              lambda: g.get_contemporaneous_nodes(rng.choice(g.get_node_names() or ['x'])),
+              lambda: g.node_exists('nope lag(n=9)'), lambda: g.get_edges(source='nope'), lambda: g.get_node('nope'),
+              lambda: g.edge_exists('nope', 'x'), lambda: g.get_nodes(rng.choice(g.get_node_names() or ['x'])),
+              lambda: g.get_inputs(), lambda: g.get_outputs(), lambda: g.get_topological_order(return_all=len(g.get_node_names()) <= 5 and rng.random() < 0.3),
+              lambda: g.extend_graph(rng.choice([None, 0, 1, 3]), rng.choice([None, 0, 2]))):
+        if rng.random() < 0.5:
+            try:
+                f()
+            except Exception:  # noqa: BLE001
+                pass
+
+
 def build(steps, gmeta):
+    import zlib
+    rng = random.Random(zlib.crc32(repr((steps, gmeta)).encode()))
+    mode = rng.randrange(4)          # 0, 1: plain construction; 2: probes half way and at the end; 3: probes at the end
     g = TimeSeriesCausalGraph(meta=copy.deepcopy(gmeta))
-    for st in steps:
+    for k, st in enumerate(steps):
+        if mode == 2 and k == len(steps) // 2:
+            probe(g, rng)
         try:
             if st[0] == 'node':
                 g.add_node(st[1], variable_type=H.VT[st[2]], meta=copy.deepcopy(st[3]))
@@ -116,6 +177,8 @@ def build(steps, gmeta):
                 g.add_edge(st[1], st[2], edge_type=H.ET[st[3]], meta=copy.deepcopy(st[4]))
         except Exception:  # noqa: BLE001  (duplicates / cycles from the random choices are simply skipped)
             pass
+    if mode >= 2:
+        probe(g, rng)
     return g
 
 
@@ -235,8 +298,14 @@ def ts_property(run, tier, seed, pid, describe=''):
              'C16': ['dag0', 'dag0', 'dag0', 'consistent', 'wild'], 'C17': ['dag', 'dag', 'dag0', 'wild']}[pid]
     for i in range(n):
         mode = modes[i % len(modes)]
-        steps, gmeta = gen_ts_graph(rng, mode)
+        if pid == 'C17' and i % 3 == 2:
+            steps, gmeta = gen_summary_graph(rng)
+            mode = 'summary-cycles'
+        else:
+            steps, gmeta = gen_ts_graph(rng, mode)
         specs.append((mode, steps, gmeta))
+    if pid == 'C17':
+        specs += [('all-3-variable-lag-1', st, gm) for st, gm in all_summary3()]
     specs.append(('empty', [], None))
     graphs = [build(s, gm) for _, s, gm in specs]
     which = [p == pid for p in ('C14', 'C15', 'C16', 'C17')]
